@@ -294,6 +294,17 @@ pub fn corpus(deep: bool) -> Vec<String> {
               "forall X J1$i J2$i (exists J$i (X = J$i and q(J$i, J1$i)) -> q(X, J2$i))", "exists Y I1$i I2$i (exists I$i (Y = I$i and q(I1$i, I2$i) and p(I$i)))", "forall Y I2$i (exists I$i I1$i (Y = I$i and I$i > I1$i + I2$i) -> p(Y))"] {
         out.push(t.to_string());
     }
+    // the shapes of restrict_quantifier_domain, with and without an inner block that binds the outer variable again
+    for t in ["exists Z (exists I$i Z (I$i = Z and q(Z)) and p(Z))", "exists Z (exists I$i (I$i = Z and q(Z)) and p(Z))", "exists Z (exists I$i Z (I$i = Z and q(I$i)) and p(Z))", "exists Z (p(Z) and exists Z I$i (Z = I$i and q(Z)))",
+              "forall Z (exists I$i Z (I$i = Z and q(Z)) -> p(Z))", "forall Z (exists I$i (I$i = Z and q(Z)) -> p(1))", "forall Z (exists Z I$i (Z = I$i and q(I$i)) -> p(a))", "exists Y Z (exists I$i Z (I$i = Z and q(Z, Y)) and p(Z))",
+              "exists Z (exists I$i J$i Z (I$i = Z and J$i = I$i and q(Z)) and p(Z))", "exists Z (exists I$i (exists Z (I$i = Z and q(Z))) and p(Z))", "forall X (exists Z (exists I$i Z (I$i = Z and q(Z, X)) and p(Z)) -> q(X))"] {
+        out.push(t.to_string());
+    }
+    // a defined variable whose definition mentions V and its indexed namesake V1, substituted below a binder of V (the renamed binder must avoid both)
+    for t in ["exists X$i (X$i = Y$i * Y1$i and exists Y$i (q(X$i, Y$i)))", "exists X$i (X$i = Y$i + Y1$i and forall Y$i (q(Y$i, X$i) -> p(Y$i)))", "exists X$i (X$i = N$i - N1$i and exists N$i N2$i (q(N$i, N2$i) and p(X$i)))",
+              "forall X$i (X$i = Y$i * Y1$i -> exists Y$i (q(X$i, Y$i)))", "exists X$i (X$i = Y1$i * Y$i and exists Y$i (q(Y$i, X$i) and exists Y1$i (p(Y1$i))))", "exists X$i (X$i = Y$i + Y1$i + Y2$i and exists Y$i Y1$i (q(Y$i, Y1$i) and p(X$i)))"] {
+        out.push(t.to_string());
+    }
     // comparison chains next to plain equations that share a term with them (a chain `V = t < u` is not a definition of V)
     for t in ["exists X$i Y$i (X$i = Z and Y$i = Z < 3 and p(Y$i))", "exists X Y (X = Z and Y = Z != 1 and q(X, Y))", "exists Y$i (Y$i = Z < 1 and p(Y$i))", "forall X$i Y$i (X$i = Z and Y$i = Z <= 0 -> q(X$i, Y$i))",
               "exists X (X = Y = 1 and p(X))", "exists X$i Y$i (X$i = N$i + 1 and Y$i = N$i + 1 > 1 and q(X$i, Y$i))", "exists X Y (Y = Z < a and X = Z and q(Y, X))", "exists X Y (X = Z and Z = Y < 1 and q(X, Y))",
